@@ -27,8 +27,8 @@ var c20Kinds = []string{"append", "arm", "disarm", "copyout", "moveout", "protec
 func (C20) Generate(r *core.Rand, tier string, idx int) *core.Scenario {
 	sc := &core.Scenario{Property: "C20", Cfg: map[string]int{}}
 	sc.Cfg["labels"] = r.Intn(2)
-	if r.P(1, 4) {
-		sc.Cfg["recfail"] = 1 // remote failures stay armed while messages are moved out of the recovery mailbox
+	if r.P(1, 2) {
+		sc.Cfg["recfail"] = 1 // (finding F14, repaired) remote failures stay armed while messages are moved out of the recovery mailbox
 	}
 	//                 app arm dis cpo mvo pro lst rst siz mov exr
 	weights := []int{16, 8, 3, 4, 4, 4, 3, 1, 2, 2, 1, 4}
